@@ -36,7 +36,7 @@ def one_case(ctx, cfg, a, read, cases):
     ty = cfg["ty"]
     inp = dict(cfg=cfg, read=read)
     restricted = a.indels and ty not in CANNOT_SKIP_START
-    occ = OA.admissible_occurrence(ty, a, read, exact_only=restricted)
+    occ = OA.admissible_occurrence(ty, a, read, exact_only=restricted, min_overlap=OA.doc_min_overlap(cfg, len(a.sequence)))
     if occ is not None:
         ctx.count("admissible")
         if occ[4] > 0 or (occ[3] == len(read) and occ[1] < len(a.sequence)):
